@@ -19,6 +19,25 @@ from checks import storelib
 
 PROP = "C01"
 PROP_FILE = "Properties/C01.v"
+# sub-operations of the registered message types (generator kind prefixes): each must occur in the log of a
+# thorough run (the quick tier reports the ones it did not draw)
+SUBOPS = ["kvs:set", "kvs:cas", "kvs:delete", "kvs:delete-cas", "kvs:delete-tree", "kvs:lock", "kvs:unlock", "kvs:invalid-op",
+          "session:create", "session:destroy", "session_create", "session_destroy", "register:node", "register:service",
+          "register:connect-proxy", "register:connect-native", "register:terminating-gateway", "register:ingress-gateway",
+          "register:mesh-gateway", "register:api-gateway", "deregister:node", "deregister:service", "deregister:check", "txn",
+          "txn:full", "reap", "tombstone:invalid-op", "coordinate", "prepared-query:create", "prepared-query:update",
+          "prepared-query:delete", "query_set", "query_delete", "autopilot:set", "autopilot:cas", "feature-gate",
+          "intention:legacy-create", "intention:legacy-update", "intention:legacy-delete", "intention:legacy-delete-all",
+          "intention:mutation-create", "intention:mutation-update", "intention:mutation-delete", "intention:mutation-upsert",
+          "connect-ca:set-config", "connect-ca:set-roots", "connect-ca:set-provider-state", "connect-ca:delete-provider-state",
+          "connect-ca:set-roots-config", "connect-ca:increment-provider-serial", "ca-leaf:increment-index",
+          "acl-token-set", "acl-token-set:cas", "acl-token-delete", "acl-bootstrap", "acl-policy-set", "acl-policy-delete",
+          "acl-role-set", "acl-role-delete", "acl-binding-rule-set", "acl-binding-rule-delete", "acl-auth-method-set",
+          "acl-auth-method-delete", "config-entry:upsert:", "config-entry:upsert-cas:", "config-entry:upsert-with-status-cas:",
+          "config-entry:delete:", "config-entry:delete-cas:", "federation-state:upsert", "federation-state:delete",
+          "system-metadata:upsert", "system-metadata:delete", "peering-write", "peering-delete", "peering-terminate",
+          "peering-trust-bundle-write", "peering-trust-bundle-delete", "peering-secrets", "resource:write", "resource:delete",
+          "manual-vips", "chunk:", "unknown-ignorable", "verifier-checkpoint", "malformed:truncated"]
 KEYS = ["a", "a/", "a/b", "ab", "b", "é"]          # harness/replica: the keys that get planted lock delays
 
 # ---------------------------------------------------------------- replica processes
@@ -32,19 +51,20 @@ REPLICAS = [
 ]
 
 
-def start_replica(binp, hist, out, spec, quiet=False):
+def start_replica(binp, hist, out, spec, quiet=False, repeat=1):
     name, env, args = spec
     e = dict(os.environ)
     e.update(env)
-    cmd = [binp, "-apply", hist, "-out", out, "-name", name] + (args if not quiet else [a for a in args if a == "-plant-delays"])
+    cmd = [binp, "-apply", hist, "-out", out, "-name", name, "-repeat", str(repeat)] + \
+        (args if not quiet else [a for a in args if a == "-plant-delays"])
     return subprocess.Popen(cmd, env=e, stdout=subprocess.PIPE, stderr=subprocess.STDOUT, text=True)
 
 
-def run_replicas(binp, hist, outdir, specs, quiet=False, timeout=3000):
+def run_replicas(binp, hist, outdir, specs, quiet=False, timeout=3000, repeat=1):
     procs = []
     for spec in specs:
         out = os.path.join(outdir, "obs_%s.jsonl" % spec[0])
-        procs.append((spec, out, start_replica(binp, hist, out, spec, quiet)))
+        procs.append((spec, out, start_replica(binp, hist, out, spec, quiet, repeat)))
     res = []
     for spec, out, p in procs:
         try:
@@ -60,12 +80,24 @@ def run_replicas(binp, hist, outdir, specs, quiet=False, timeout=3000):
 
 # ---------------------------------------------------------------- classification of a differing step
 
-# Differences that match an OPEN entry of known_findings.json would be listed here as
-# (class, message types, mask).  There is none: the four order-dependent results found while building
-# this check (UnassignedFrom in map order; error texts naming the first invalid metadata pair, the
-# missing JWT providers, the first failing discovery chain) were repaired in /repo (9d6116b, 7ea9e44,
-# 281c379, 897c9ff) and every result is now compared raw -- list orders and error texts included.
-ERROR_CLASSES = []
+# Differences that match an OPEN entry of known_findings.json.  Each class is recognised by the exact
+# SHAPE of the two error texts (never by message type alone), so that any other difference stays a
+# violation.  The four order-dependent results found while building this check were repaired in /repo
+# (9d6116b, 7ea9e44, 281c379, 897c9ff) and are compared raw.  One remains open:
+#   peer-export-safe-chain: validateChainIsPeerExportSafe ranges over the chain's routers / splitters /
+#   resolvers (maps) and returns the first complaint; both replicas reject the write, name the SAME
+#   exported service, and differ only in WHICH of its six fixed complaints they report.
+_PES = re.compile(r'^error "peer exported service \\"((?:(?!\\").)*)\\" contains '
+                  r'(cross-datacenter resolver redirect|cross-peer resolver redirect|cross-partition resolver redirect|'
+                  r'cross-datacenter failover|cross-partition route destination|cross-partition split destination)"$')
+
+
+def _peer_export_safe(ra, rb):
+    a, b = _PES.match(ra), _PES.match(rb)
+    return bool(a and b and a.group(1) == b.group(1) and a.group(2) != b.group(2))
+
+
+ERROR_CLASSES = [("peer-export-safe-chain", _peer_export_safe)]
 
 
 def step_core(s):
@@ -84,9 +116,8 @@ def classify(entry, sa, sb):
     ra, rb = sa["res"], sb["res"]
     if ra == rb:
         return None
-    typ = entry.get("type", -1)
-    for cls, types, mask in ERROR_CLASSES:
-        if typ in types and mask(ra) == mask(rb):
+    for cls, same_class in ERROR_CLASSES:
+        if same_class(ra, rb):
             return {"known": {"kind": "error-text-map-order", "class": cls}}
     return {"violation": "command result differs"}
 
@@ -101,6 +132,8 @@ def compare_files(hists, fa, fb):
                 continue
             x, y = json.loads(la), json.loads(lb)
             assert x["id"] == h["id"] == y["id"]
+            x.pop("self_diffs", None)     # reported separately (self_divergences)
+            y.pop("self_diffs", None)
             if len(x["steps"]) != len(y["steps"]) or x.get("panic") != y.get("panic"):
                 yield h, min(len(x["steps"]), len(y["steps"])) - 1, {"violation": "one replica stopped (panic) and the other did not"}, \
                     (x["steps"] or [None])[-1], (y["steps"] or [None])[-1]
@@ -111,6 +144,27 @@ def compare_files(hists, fa, fb):
                     yield h, i, c, sa, sb
             if x.get("mfinal") != y.get("mfinal"):
                 yield h, len(x["steps"]) - 1, {"violation": "projected final store differs"}, x["steps"][-1], y["steps"][-1]
+
+
+def self_divergences(hists, f):
+    """the in-process repeats (-repeat k): every step at which a further fresh FSM differed from the first"""
+    with open(f) as a:
+        a.readline()
+        for h, la in zip(hists, a):
+            if '"self_diffs"' not in la and '"l4_targets_max"' not in la:
+                continue
+            x = json.loads(la)
+            for d in x.get("self_diffs") or []:
+                if d.get("a") is None or d.get("b") is None:
+                    yield h, d["step"], {"violation": "one in-process replica stopped (panic) and the other did not"}, d.get("a"), d.get("b")
+                    continue
+                c = classify(h["entries"][d["step"]], d["a"], d["b"])
+                if c:
+                    yield h, d["step"], c, d["a"], d["b"]
+            if x.get("l4_targets_max", 0) > 1:
+                yield h, len(x["steps"]) - 1, {"violation": "a non-HTTP discovery chain has %d non-failover targets: the argument that makes "
+                                               "config_entry.go convertTargetsToTestSpiffeIDs / newSpiffeIDs order-independent (allowlist class "
+                                               "'unreachable') does not hold" % x["l4_targets_max"]}, x["steps"][-1], x["steps"][-1]
 
 
 # ---------------------------------------------------------------- shrinking
@@ -124,8 +178,9 @@ def unknown_divergence(binp, entries, workdir, tag, trials=4):
     for _ in range(trials):
         d = os.path.join(workdir, "shrink_%s" % tag)
         os.makedirs(d, exist_ok=True)
-        outs = run_replicas(binp, hist, d, REPLICAS[:2], quiet=True, timeout=120)
-        for _, i, c, sa, sb in compare_files([h], outs[0], outs[1]):
+        outs = run_replicas(binp, hist, d, REPLICAS[:2], quiet=True, timeout=300, repeat=3)
+        found = list(compare_files([h], outs[0], outs[1])) + list(self_divergences([h], outs[0])) + list(self_divergences([h], outs[1]))
+        for _, i, c, sa, sb in sorted(found, key=lambda t: t[1]):
             if "violation" in c:
                 return i, c, sa, sb
     return None
@@ -194,6 +249,100 @@ def vshard_text(cases):
             "Definition M := Eval vm_compute in vmismatches cases.\nPrint M.\n" % ";\n  ".join(cases))
 
 
+# ---------------------------------------------------------------- static inventory (map ranges, clock, randomness, host reads)
+
+def start_inventory(wd):
+    """build and start checks/C01inv (go/packages + SSA + class-hierarchy call graph) on the tree under test"""
+    src = os.path.join(vlib.VERIF, "checks", "C01inv")
+    binp = os.path.join(vlib.BUILD, "bin", "fsminv")
+    rc, o = vlib.sh([vlib.GO, "build", "-o", binp, "."], cwd=src, env=vlib.GOENV, timeout=1200)
+    if rc != 0:
+        raise vlib.BuildError("inventory tool does not build: " + o[-2000:])
+    out = os.path.join(wd, "inventory.jsonl")
+    return out, subprocess.Popen([binp, "-repo", vlib.REPO, "-out", out], stdout=subprocess.PIPE, stderr=subprocess.STDOUT, text=True)
+
+
+def check_inventory(ctx, out, proc):
+    o, _ = proc.communicate(timeout=2400)
+    if proc.returncode != 0:
+        raise vlib.BuildError("inventory tool failed: " + (o or "")[-2000:])
+    sites = [json.loads(l) for l in open(out)]
+    allowdoc = json.load(open(os.path.join(vlib.VERIF, "checks", "C01.allow.json")))
+    allow = allowdoc["sites"]
+    pkg_rules = {r["pkg"]: r for r in allowdoc.get("package_rules", [])}
+    key = lambda x: (x["kind"], x["pkg"], x["func"], x["text"])
+    allowed = {key(a): a for a in allow}
+    new, grown = [], []
+    classes = collections.Counter()
+    for x in sites:
+        a = allowed.get(key(x))
+        if a is None and x["pkg"] in pkg_rules:
+            classes[pkg_rules[x["pkg"]]["class"] + " (package rule)"] += 1
+        elif a is None:
+            new.append(x)
+        elif x["n"] > a["n"]:
+            grown.append(dict(x, allowed_n=a["n"]))
+        else:
+            classes[a["class"]] += 1
+    stale = [a for k, a in allowed.items() if k not in {key(x) for x in sites}]
+    if new or grown:
+        ctx.violation({"kind": "static-inventory",
+                       "what": "code reachable from FSM.Apply ranges over a Go map / reads the clock, randomness, the environment or the host "
+                               "at a site that checks/C01.allow.json does not account for: settle it (model it, argue order/clock independence, "
+                               "or record a finding) and add it to the allowlist",
+                       "new_sites": new[:40], "sites_whose_count_grew": grown[:40]}, found_input=False)
+    return {"sites": len(sites), "by_kind": dict(collections.Counter(x["kind"] for x in sites)), "by_class": dict(classes),
+            "unaccounted": len(new) + len(grown), "allowlist_entries_no_longer_in_tree": len(stale), "tool_output": (o or "").strip()[-200:]}
+
+
+# ---------------------------------------------------------------- unit cases (one call of the real handler per case)
+
+def _addrs(l):
+    return storelib.clist(["(%s, (%s, %d))" % (storelib.cs(a["key"]), storelib.cs(a["addr"]), a["port"]) for a in l])
+
+
+def _strs(l):
+    return storelib.clist([storelib.cs(x) for x in l])
+
+
+def unit_shards(units):
+    """{kind: (coq type, mismatch function, [case terms])}"""
+    out = collections.OrderedDict((k, (t, f, [])) for k, t, f in [
+        ("usage", "ucase", "umismatches"), ("topo", "tcase", "tmismatches"), ("tagged-register", "gcase", "gmismatches"),
+        ("tagged-config", "hcase", "hmismatches"), ("meta", "mcase", "mmismatches"), ("jwt", "jcase", "jmismatches")])
+    for u in units:
+        k = u["kind"]
+        if k == "usage":
+            t = "UCase %d %s %s %s" % (u["idx"],
+                                       storelib.clist(["(%s, (%d)%%Z)" % (storelib.cs(d[0]), d[1]) for d in u.get("deltas") or []]),
+                                       storelib.clist(["(%s, (%d, %d))" % (storelib.cs(r[0]), r[1], r[2]) for r in u.get("ubefore") or []]),
+                                       storelib.clist(["(%s, (%d, %d))" % (storelib.cs(r[0]), r[1], r[2]) for r in u.get("uafter") or []]))
+        elif k == "topo":
+            pr = lambda rows: storelib.clist(["(%s, %s)" % (storelib.cs(a), storelib.cs(b)) for a, b in rows])
+            t = "TCase %d %s %s %s %s %d %s %d" % (u["idx"], storelib.cs(u["ds"]), _strs(u["news"]), _strs(u["old"]),
+                                                  pr(u["rows_before"]), u["index_before"], pr(u["rows_after"]), u["index_after"])
+        elif k == "tagged-register":
+            t = "GCase %s %s %s" % (_addrs(u["requested"]), _addrs(u["addrs"]), _addrs(u["result"]))
+        elif k == "tagged-config":
+            t = "HCase %s %s %s" % (_addrs(u["existing"]), _addrs(u["addrs"]), _addrs(u["result"]))
+        elif k == "meta":
+            named = "None" if not u.get("named") else "(Some (%s, %s))" % (storelib.cs(u["named"][0]), storelib.cs(u["named"][1]))
+            t = "MCase %s %s %s" % (storelib.clist(["(%s, %s)" % (storelib.cs(a), storelib.cs(b)) for a, b in u["pairs"]]), _strs(u["bad"]), named)
+        elif k == "jwt":
+            t = "JCase %s %s %s" % (_strs(u["known"]), _strs(u["referenced"]), _strs(u["lines"]))
+        else:
+            raise ValueError("unknown unit kind " + k)
+        out[k][2].append(t)
+    return out
+
+
+def unit_text(typ, fn, cases):
+    return ("From stdpp Require Import gmap strings.\nFrom Coq Require Import NArith ZArith.\n"
+            "From Verif Require Import Store.Model FSM.Model Run.C01.\nLocal Open Scope N_scope.\n"
+            "Definition cases : list %s := [\n  %s\n].\n"
+            "Definition M := Eval vm_compute in %s cases.\nPrint M.\n" % (typ, ";\n  ".join(cases), fn))
+
+
 # ---------------------------------------------------------------- the check
 
 def run(ctx):
@@ -214,6 +363,7 @@ def run(ctx):
 
     binp = vlib.go_build("replica")
     wd = ctx.workdir
+    inv_out, inv_proc = start_inventory(wd)
 
     # ---- every registered message type must have a generator
     rc, o = vlib.sh([binp, "-types"], timeout=120)
@@ -254,8 +404,9 @@ def run(ctx):
 
     # ---- the replicas: separate processes, different environments
     specs = REPLICAS[:2] if ctx.tier == "quick" else REPLICAS
+    repeat = 2 if ctx.tier == "quick" else 4      # fresh FSMs per history inside each process (quick: 4 FSMs in all, thorough: 12)
     t0 = time.time()
-    outs = run_replicas(binp, hist, wd, specs)
+    outs = run_replicas(binp, hist, wd, specs, repeat=repeat)
     replica_wall = time.time() - t0
     headers = [json.loads(open(o).readline()) for o in outs]
 
@@ -271,6 +422,18 @@ def run(ctx):
                     continue
                 c = {"violation": "difference of a recorded class but no open known finding matches", "signature": c["known"]}
             violations.append((h, step, c, sa, sb, specs[i][0], specs[j][0]))
+    self_diffs = 0
+    for i, o in enumerate(outs):
+        for h, step, c, sa, sb in self_divergences(hists, o):
+            self_diffs += 1
+            if "known" in c:
+                f = vlib.match_known(PROP, c["known"])
+                if f:
+                    ctx.known(f, f["what"])
+                    known_counts[json.dumps(c["known"], sort_keys=True)] += 1
+                    continue
+                c = {"violation": "difference of a recorded class but no open known finding matches", "signature": c["known"]}
+            violations.append((h, step, c, sa, sb, specs[i][0] + "/fsm0", specs[i][0] + "/fsm+"))
 
     for h, step, c, sa, sb, na, nb in violations[:3]:
         entries = h["entries"][:step + 1]
@@ -336,6 +499,10 @@ def run(ctx):
                     case_hists.append(h)
                 except ValueError as ex:
                     vocab_error = str(ex)
+    allkinds = {e["kind"] for h in hists for e in h["entries"]}
+    subops_missing = [p for p in SUBOPS if not any(k == p or (p.endswith(":") and k.startswith(p)) or k.startswith(p + ":") for k in allkinds)]
+    if subops_missing and ctx.tier != "quick":
+        ctx.violation({"kind": "generator-coverage", "what": "sub-operations that did not occur in this run's log", "kinds": subops_missing}, found_input=False)
     registered = set(types.get("registered") or [])
     uncovered_in_run = sorted(registered - set(tys))
     if uncovered_in_run:
@@ -351,24 +518,55 @@ def run(ctx):
     shards = [cases[i:i + per] for i in range(0, len(cases), per)]
     vper = 400
     vshards = [vcases[i:i + vper] for i in range(0, len(vcases), vper)]
-    texts = [shard_text(s) for s in shards] + [vshard_text(s) for s in vshards]
-    res = vlib.coq_run_shards(PROP, texts)
+    # unit cases: one call of the real handler per case (usage deltas, mesh topology, tagged addresses,
+    # metadata, JWT providers)
+    ufile = os.path.join(wd, "units.jsonl")
+    rc, o = vlib.sh([binp, "-units", "-seed", str(ctx.seed), "-tier", ctx.tier, "-out", ufile], timeout=1800)
+    if rc != 0:
+        raise vlib.BuildError("unit mode failed: " + o[-2000:])
+    ush = unit_shards([json.loads(l) for l in open(ufile)])
+    utexts, umeta = [], []
+    for kind, (typ, fn, ucs) in ush.items():
+        for i in range(0, len(ucs), 300):
+            utexts.append(unit_text(typ, fn, ucs[i:i + 300]))
+            umeta.append((kind, ucs[i:i + 300]))
+    texts = [shard_text(s) for s in shards] + [vshard_text(s) for s in vshards] + utexts
+    res = vlib.coq_run_shards(PROP, texts, jobs=4)
+    umism = collections.Counter()
+    ufirst = {}
     for k, (okk, idx, raw) in enumerate(res):
         if not okk:
             ctx.violation({"kind": "case-file-failed", "log": raw}, found_input=False)
             continue
         if k < len(shards):
             mism += [case_hists[k * per + i] for i in idx]
-        else:
+        elif k < len(shards) + len(vshards):
             vmism += [vshards[k - len(shards)][i] for i in idx]
-    if (mism or vmism) and not violations:
-        obj = {"kind": "correspondence", "theorem": "Run.C01.check / vcheck (model run twice = implementation)",
-               "mismatching_core_histories": len(mism), "mismatching_manual_vip_steps": len(vmism)}
+        else:
+            kind, ucs = umeta[k - len(shards) - len(vshards)]
+            umism[kind] += len(idx)
+            if idx:
+                ufirst.setdefault(kind, ucs[idx[0]])
+    if (mism or vmism or sum(umism.values())) and not violations:
+        obj = {"kind": "correspondence", "theorem": "Run.C01 check / vcheck / ucheck / tcheck / gcheck / hcheck / mcheck / jcheck (models = implementation)",
+               "mismatching_core_histories": len(mism), "mismatching_manual_vip_steps": len(vmism), "mismatching_unit_cases": dict(umism)}
         if mism:
             obj["entries"] = mism[0]["entries"]
         if vmism:
             obj["first_vip_case"] = vmism[0]
+        if ufirst:
+            obj["first_unit_case"] = ufirst
         ctx.violation(obj, found_input=False)
+
+    inventory = check_inventory(ctx, inv_out, inv_proc)
+    l4_chains = l4_max = 0
+    with open(outs[0]) as fa:
+        fa.readline()
+        for la in fa:
+            if '"l4_chains"' in la:
+                x = json.loads(la)
+                l4_chains += x.get("l4_chains", 0)
+                l4_max = max(l4_max, x.get("l4_targets_max", 0))
 
     cov.update({
         "evaluations": len(hists),
@@ -384,15 +582,22 @@ def run(ctx):
         "registered_message_types": sorted(registered),
         "message_type_histogram": {types["names"].get(str(t), str(t)): c for t, c in sorted(tys.items())},
         "generator_kinds": dict(sorted(kinds.items())),
+        "suboperations_required": len(SUBOPS), "suboperations_not_drawn": subops_missing,
         "result_outcomes": dict(outcome),
         "profiles": dict(profiles),
         "history_length_histogram": {str(k): v for k, v in sorted(lens.items())},
         "divergent_steps_known": {k: v for k, v in known_counts.items()},
         "divergent_steps_unknown": len(violations),
-        "traces_validated_against_impl": len(cases) - len(mism) + len(vcases) - len(vmism),
+        "fresh_fsms_per_history": repeat * len(specs),
+        "in_process_divergent_steps": self_diffs,
+        "static_inventory": inventory,
+        "non_http_chains_compiled": l4_chains, "non_http_chain_max_nonfailover_targets": l4_max,
+        "unit_cases_replayed_in_coq_three_orders": {k: len(v[2]) for k, v in ush.items()},
+        "unit_case_mismatches": dict(umism),
+        "traces_validated_against_impl": len(cases) - len(mism) + len(vcases) - len(vmism) + sum(len(v[2]) for v in ush.values()) - sum(umism.values()),
         "core_histories_replayed_in_coq_twice": len(cases),
         "manual_vip_steps_replayed_in_coq_two_orders": len(vcases),
-        "model_mismatches": len(mism) + len(vmism),
+        "model_mismatches": len(mism) + len(vmism) + sum(umism.values()),
         "samples": [{"profile": h["profile"], "kinds": [e["kind"] for e in h["entries"][:12]]} for h in hists[:2] + hists[-3:]],
         "exhaustive": False,
     })
